@@ -2,6 +2,7 @@
 
 use crate::eng_codec::{ReadEngine, WriteEngine};
 use crate::eng_flood::FloodEngine;
+use crate::eng_soup::SoupEngine;
 use crate::eng_hpack::{self, DecEngine, EncEngine, SplitEngine};
 use crate::eng_pair::PairEngine;
 use crate::eng_raw::{CatalogueServerEngine, HttpEngine};
@@ -128,7 +129,13 @@ pub fn run_check(id: &str, tier: Tier) -> i32 {
             assumptions.push("every connection is driven by its own task which drops the Connection when its future completes".into());
         }
         "C08" => {
-            parts.push(run_engine(&CatalogueServerEngine, &ctx, scale(tier, 12_000, 400_000)));
+            parts.push(run_engine(&SoupEngine { server: true }, &ctx, scale(tier, 16_000, 600_000)));
+            if parts.iter().all(|p| p.failure.is_none()) {
+                parts.push(run_engine(&SoupEngine { server: false }, &ctx, scale(tier, 12_000, 400_000)));
+            }
+            if parts.iter().all(|p| p.failure.is_none()) {
+                parts.push(run_engine(&CatalogueServerEngine, &ctx, scale(tier, 6_000, 200_000)));
+            }
             for f in [Focus::Resets, Focus::Faults] {
                 if parts.iter().all(|p| p.failure.is_none()) {
                     parts.push(run_engine(&PairEngine { focus: f }, &ctx, scale(tier, 5_000, 200_000)));
@@ -230,6 +237,8 @@ pub fn replay(path: &str) -> i32 {
         "raw-flow-server" => runner::replay_case(&FlowEngine, case),
         "raw-capacity-server" => runner::replay_case(&CapEngine, case),
         "flood-doubling" => runner::replay_case(&FloodEngine, case),
+        "raw-soup-server" => runner::replay_case(&SoupEngine { server: true }, case),
+        "raw-soup-client" => runner::replay_case(&SoupEngine { server: false }, case),
         "raw-shutdown-server" => runner::replay_case(&ShutdownEngine { server: true }, case),
         "raw-goaway-client" => runner::replay_case(&ShutdownEngine { server: false }, case),
         "raw-http-server" => runner::replay_case(&HttpEngine { server: true }, case),
